@@ -529,4 +529,20 @@ example : (emitCreate Gen.data Gen.creatorData ⟨"keep", false, false, 2, true,
 example : ((emitCreate Gen.data ⟨false, false, true⟩ ⟨"keep", true, false, 2, true, [], [], 0, 1, 1, 0⟩ 2).getD []).any
     Cmd.isRot = true := by decide
 
+/-! ## (h) the hardware configuration -/
+
+/-- `single_comm_qubit` over the swept configurations: every NV configuration and exactly the
+generic configuration with a budget of one qubit -/
+theorem single_comm_configs :
+    (List.range 8).all (fun k => singleComm "nv" k) = true ∧
+    (List.range 8).all (fun k => singleComm "generic" k == (k == 1)) = true := by decide
+
+/-- on a single-communication-qubit configuration a plain `recv_keep` emits the correction block
+exactly once (inside the one-pair-at-a-time loop) and no wait-all correction loop: the emission has as
+many rotations as one single-pair block (four) -/
+theorem single_comm_corrects_once :
+    [("generic", 1), ("nv", 1), ("nv", 2), ("nv", 5)].all (fun (kind, k) =>
+      ((emit Gen.data ⟨"keep", singleComm kind k, false, 1, true, [], [], 0, 1, 1, 0⟩).getD []).countP Cmd.isRot == 4)
+      = true := by decide
+
 end NQ.C10
